@@ -441,9 +441,23 @@ where
     LM: MatchLiteral,
     <T as FromStr>::Err: Debug,
 {
+    // A commutative operator between two numbers must not be preferred to a different
+    // operator of the same priority on its left that would lose its right operand.
+    let can_be_preferred = |bin_op_idx: usize| {
+        let op = &bin_ops[bin_op_idx];
+        bin_ops[..bin_op_idx]
+            .iter()
+            .rev()
+            .find(|o| o.op.prio <= op.op.prio)
+            .map(|o| o.op.prio < op.op.prio || o.idx == op.idx)
+            .unwrap_or(true)
+    };
     let prio_increase =
         |bin_op_node_idx: usize| match (&nodes[bin_op_node_idx], &nodes[bin_op_node_idx + 1]) {
-            (DeepNode::Num(_), DeepNode::Num(_)) if bin_ops[bin_op_node_idx].op.is_commutative => {
+            (DeepNode::Num(_), DeepNode::Num(_))
+                if bin_ops[bin_op_node_idx].op.is_commutative
+                    && can_be_preferred(bin_op_node_idx) =>
+            {
                 let prio_inc = 5;
                 &bin_ops[bin_op_node_idx].op.prio * 10 + prio_inc
             }
